@@ -4,8 +4,13 @@ TLC prints, per configuration, the text of a tuple display containing 1..3 lambd
 first/last line of each and the expected result for the object created by each lambda.  This module writes
 many configurations into one real module, evaluates it to obtain the actual lambda objects (nested ones by
 calling their parent), validates the line model against CPython and compares what malt recovers.
+
+wr[k] != 'no': the specification wrote  functools.wraps(W_<sig>)(lambda ...)  - the object carries __wrapped__.  The
+functions W_<sig> live in the prelude of every module; that they have the parameter names the specification assumes
+(`shown`) and that the object keeps its own (`own`) is validated against CPython for every object.
 """
 import ast
+import inspect
 
 from . import common
 from . import c15_layout as L
@@ -21,11 +26,49 @@ SIG_NAME = {'none': 'noargs', 'x': 'x', 'y': 'y', 'xy': 'x-y', 'xd': 'x-default'
             'po': 'x-posonly', 'ko': 'x-kwonly', 'xz': 'x-z-default'}
 
 
+# parameter lists as the specification writes them (SigText); W_<sig> is what functools.wraps(...) copies from
+SIG_TEXT = {'none': '', 'x': 'x', 'y': 'y', 'xy': 'x, y', 'xd': 'x=5', 'va': '*a', 'kw': '**k', 'po': 'x, /',
+            'ko': '*, x', 'xz': 'x, z=5'}
+PRELUDE = ('# lambda configurations enumerated by spec/LambdaSelect.tla\nimport functools\n' +
+           ''.join('def W_%s(%s): return 0\n' % (s, t) for s, t in sorted(SIG_TEXT.items())))
+PRELUDE_LINES = PRELUDE.count('\n')
+
+
+def _wr(rec):
+    return rec.get('wr') or ['no'] * rec['n']
+
+
+def own_key(fn):
+    """args (incl. positional-only) | varargs | varkw | kwonly of the function's own code object"""
+    c = fn.__code__
+    pos, ko = c.co_argcount, c.co_kwonlyargcount
+    names = list(c.co_varnames)
+    k = pos + ko
+    va = kw = ''
+    if c.co_flags & inspect.CO_VARARGS:
+        va = names[k]
+        k += 1
+    if c.co_flags & inspect.CO_VARKEYWORDS:
+        kw = names[k]
+    return '%s|%s|%s|%s' % (','.join(names[:pos]), va, kw, ','.join(names[pos:pos + ko]))
+
+
+def shown_key(fn):
+    """the same, as reported by introspection that follows __wrapped__ (inspect.signature)"""
+    P = inspect.Parameter
+    ps = list(inspect.signature(fn).parameters.values())
+
+    def names(*kinds):
+        return ','.join(p.name for p in ps if p.kind in kinds)
+    return '%s|%s|%s|%s' % (names(P.POSITIONAL_ONLY, P.POSITIONAL_OR_KEYWORD), names(P.VAR_POSITIONAL),
+                            names(P.VAR_KEYWORD), names(P.KEYWORD_ONLY))
+
+
 def build_module(recs):
     """-> (source, [line of the first line of configuration i's text], [line after its last line])"""
-    out = ['# lambda configurations enumerated by spec/LambdaSelect.tla\n']
+    out = [PRELUDE]
     offs, ends = [], []
-    line = 2
+    line = PRELUDE_LINES + 1
     for i, r in enumerate(recs):
         text = r['text'].replace('TGT', 'X%d_' % i)
         nl = text.count('\n')
@@ -111,6 +154,18 @@ def run_batch(parser, errors, recs, scratch, stats):
                         or ob.__code__.co_firstlineno != nd.lineno:
                     raise common.MachineryError('LambdaSelect.tla disagrees with CPython on the lines of lambda %d in %r' % (
                         k, rec['text']))
+                # ... and so is what it says about functools.wraps: the object is the lambda (its own code and
+                # parameters), only wrapper-following introspection reports the wrapped function's parameters
+                w = _wr(rec)[k - 1]
+                if 'own' in rec and (
+                        own_key(ob) != rec['own'][k - 1] or shown_key(ob) != rec['shown'][k - 1]
+                        or ob.__code__.co_name != '<lambda>'
+                        or (getattr(ob, '__wrapped__', None) is not getattr(mod, 'W_' + w, None))):
+                    raise common.MachineryError(
+                        'LambdaSelect.tla disagrees with CPython on the parameters of lambda %d in %r: own %s shown %s' % (
+                            k, rec['text'], own_key(ob), shown_key(ob)))
+                if w != 'no':
+                    stats['wrapped_lambda_objects'] = stats.get('wrapped_lambda_objects', 0) + 1
                 want = ast.dump(nd)
                 try:
                     got, _s = parser.parse_entity(ob, ())
@@ -174,7 +229,8 @@ SEVERITY = ['wrong-lambda', 'altered', 'error', 'unresolved']
 
 
 def key_of(rec):
-    return (rec['cx'], tuple(rec['par']), tuple(rec['brk']), tuple(rec['span']), tuple(rec['sig']), tuple(rec['sep']))
+    return (rec['cx'], tuple(rec['par']), tuple(rec['brk']), tuple(rec['span']), tuple(rec['sig']), tuple(rec['sep']),
+            tuple(_wr(rec)))
 
 
 def violation_class(sig):
@@ -184,10 +240,10 @@ def violation_class(sig):
 
 def reductions(key, i):
     """simpler configurations, each with the new index of the object under test (1-based)"""
-    cx, par, brk, span, sig, sep = key
+    cx, par, brk, span, sig, sep, wr = key
     n = len(par)
     if cx != 'mod':
-        yield ('mod', par, brk, span, sig, sep), i
+        yield ('mod', par, brk, span, sig, sep, wr), i
     for k in range(n - 1, -1, -1):                # drop another lambda; lambdas inside it move to its parent
         if n > 1 and k + 1 != i:
             newpar = tuple((par[k] if p == k + 1 else p - 1 if p > k + 1 else p) for q, p in enumerate(par) if q != k)
@@ -196,27 +252,35 @@ def reductions(key, i):
                 return tuple(x for q, x in enumerate(t) if q != k)
             newsep = cut(sep)
             newsep = ('comma',) + newsep[1:]      # the first lambda never opens a second statement
-            yield (cx, newpar, cut(brk), cut(span), cut(sig), newsep), (i - 1 if k + 1 < i else i)
+            yield (cx, newpar, cut(brk), cut(span), cut(sig), newsep, cut(wr)), (i - 1 if k + 1 < i else i)
+    for k in range(n):
+        if wr[k] != 'no':                        # the object no longer goes through functools.wraps
+            yield (cx, par, brk, span, sig, sep, wr[:k] + ('no',) + wr[k + 1:]), i
     for k in range(n):
         if sep[k] != 'comma':                    # join two statements into one tuple display
-            yield (cx, par, brk, span, sig, sep[:k] + ('comma',) + sep[k + 1:]), i
+            yield (cx, par, brk, span, sig, sep[:k] + ('comma',) + sep[k + 1:], wr), i
         if brk[k] != 'same':
-            yield (cx, par, brk[:k] + ('same',) + brk[k + 1:], span, sig, sep), i
+            yield (cx, par, brk[:k] + ('same',) + brk[k + 1:], span, sig, sep, wr), i
         if span[k] != 'one':
-            yield (cx, par, brk, span[:k] + ('one',) + span[k + 1:], sig, sep), i
+            yield (cx, par, brk, span[:k] + ('one',) + span[k + 1:], sig, sep, wr), i
         if par[k] != 0:                          # lift the last lambda, if nested and childless, to the top level
             if (k + 1) not in par and k == n - 1:
-                yield (cx, par[:k] + (0,), brk, span, sig, sep), i
-        # a parameter list that shares its names with no other lambda may lose its parameters altogether
-        # (never rename: a reduction must remove features, not create a new name clash)
-        others = [NAMES[sig[j]] for j in range(n) if j != k]
+                yield (cx, par[:k] + (0,), brk, span, sig, sep, wr), i
+        # a parameter list that shares its names with no other lambda (nor with a wrapped function) may lose its
+        # parameters altogether (never rename: a reduction must remove features, not create a new name clash)
+        wnames = [NAMES[w] for w in wr if w != 'no']
+        others = [NAMES[sig[j]] for j in range(n) if j != k] + wnames
         if sig[k] != 'none' and NAMES[sig[k]] not in others and NAMES['none'] not in others:
-            yield (cx, par, brk, span, sig[:k] + ('none',) + sig[k + 1:], sep), i
+            yield (cx, par, brk, span, sig[:k] + ('none',) + sig[k + 1:], sep, wr), i
+        # likewise the parameter list of a wrapped function
+        others = [NAMES[s] for s in sig] + [NAMES[w] for j, w in enumerate(wr) if w != 'no' and j != k]
+        if wr[k] not in ('no', 'none') and NAMES[wr[k]] not in others and NAMES['none'] not in others:
+            yield (cx, par, brk, span, sig, sep, wr[:k] + ('none',) + wr[k + 1:]), i
 
 
 def describe(key, rec):
     """feature description of a (minimal) configuration: parameter lists and how the lambdas relate"""
-    cx, par, brk, span, sig, sep = key
+    cx, par, brk, span, sig, sep, wr = key
     names = '-vs-'.join(sorted(SIG_NAME[s] for s in sig))
     n = len(par)
     rels = set()
@@ -231,6 +295,9 @@ def describe(key, rec):
         extra.append('in-function')
     if 'semi' in sep:
         extra.append('separate-statements')
+    for k in range(n):                           # functools.wraps(<function with parameters wr>)(<lambda sig>)
+        if wr[k] != 'no':
+            extra.append('%s-wraps-%s' % (SIG_NAME[sig[k]], SIG_NAME[wr[k]]))
     if n == 1:
         rels.add('alone')
         if span[0] == 'two':
